@@ -11,6 +11,7 @@ from trie.smt import SparseMerkleProof, SparseMerkleTree, calc_root
 from trie.typing import Nibbles
 
 from ..hexcommon import histories
+from ..faults import HookDB
 from ..hexrun import norm_counts, play, run_history
 from ..ref.bintrie import RefBin
 from ..ref.smt import RefSMT
@@ -84,6 +85,10 @@ HEX_ENTRIES = {
     "get_from_proof.key": (BAD_BYTES, ValidationError),
     "traverse.nibbles": (BAD_NIBBLES, NIB_ERR),
     "traverse_from.nibbles": (BAD_NIBBLES, NIB_ERR),
+    # the invalid call is made from inside a database access of another, valid write that is in
+    # progress on the same trie (a database object that calls back into user code)
+    "reentrant.set.value": (["none", "str", "int"], ValidationError),
+    "reentrant.delete.key": (["none", "str", "int"], ValidationError),
 }
 BIN_ENTRIES = {
     "get.key": (BAD_BYTES, ValidationError), "exists.key": (BAD_BYTES, ValidationError),
@@ -236,8 +241,42 @@ def _hex_bad_call(t, entry, kind):
     return impl(entry, calls[entry], allowed=E)
 
 
+def _run_reentrant(case, info):
+    _, entry, kind = case["bad"]
+    prune = bool(case["prune"])
+    db = HookDB()
+    t = impl("construct", HexaryTrie, db, prune=prune)
+    model = {}
+    play(t, model, case["pre"])
+    nested = []
+
+    def hook(_kind, _key):
+        try:
+            if entry == "reentrant.set.value":
+                nested.append(t.set(b"\x12\x34", bad_bytes(kind, b"v")))
+            else:
+                nested.append(t.delete(bad_bytes(kind, b"\x12\x34")))
+        except Exception as exc:  # noqa: BLE001 - recorded and judged below
+            nested.append(exc)
+
+    db.arm(hook, case["n"] % 3)
+    outer_key, outer_val = b"\x12\x34\x56", b"outer" * 8
+    impl("set-never-raises", t.set, outer_key, outer_val)  # the valid write in progress
+    db.hook = None
+    model[outer_key] = outer_val
+    if nested:
+        r = Raised(nested[0]) if isinstance(nested[0], Exception) else nested[0]
+        _refused(entry, kind, r, ValidationError)
+        info.label("re-entrant-invalid-call")
+    checks = {"map", "root"} | ({"prune"} if prune else set())
+    run_history(None, checks, info, state=(t, db, model), ops=case["post"])
+    return bool(case["pre"])
+
+
 def _run_hexary(case, info):
     _, entry, kind = case["bad"]
+    if entry.startswith("reentrant."):
+        return _run_reentrant(case, info)
     prune = bool(case["prune"])
     if entry == "at_root.pruning":
         prune = True
